@@ -19,8 +19,11 @@ P = {
                      "bit-serial definition on every parsed block, not translated"],
     "level_text": "Generic burst theorem for reflected CRCs of any width (backwards induction on the zero-input step), instantiated "
                   "for X-25 and CRC-32C; acceptance of a block implies the CRC equation over exactly its received bytes; the "
-                  "serialiser satisfies it; hence same-boundary corruptions by short bursts in the covered bytes or in the value "
-                  "are rejected.",
-    "level_note": "partial: bursts that straddle covered bytes and the big-endian CRC value are not covered by the theorem (the "
-                  "checker reports them under their own key); 'block boundaries intact' is a premise.",
+                  "serialiser satisfies it; hence same-boundary corruptions by short bursts in the covered bytes, in the value, "
+                  "or straddling both are rejected.",
+    "level_note": "C03_straddle_rejected (Proofs/CrcStraddle.v) covers every non-zero burst of at most 16 / 32 bits anywhere in a "
+                  "block - inside the covered bytes, inside the big-endian CRC value, or across both - in the bit order of the "
+                  "transmitted stream (LSB first within a byte), by linearity of the CRC register and an exhaustive sweep over "
+                  "the 2^7 / 2^23 data-tail patterns closed by vm_compute. 'Block boundaries intact' is the premise that the "
+                  "CRC field's head byte is unchanged; C03_straddle_head_needed shows by a witness that it cannot be dropped.",
 }
